@@ -276,6 +276,7 @@ type e2eCase struct {
 	// only one the strategy may rewrite.
 	Work        []workPkg `json:",omitempty"`
 	MinSeverity float64 `json:",omitempty"`
+	ProfileMgmt bool    `json:",omitempty"` // Maven, single file: an inactive profile with a <dependencyManagement> of its own
 	MavenMgmt   bool    `json:",omitempty"` // ResolutionOptions.MavenManagement: dependencyManagement entries that nothing requires count as dependencies
 	Parents    int    `json:",omitempty"`
 	OmitIDs    []bool `json:",omitempty"`
@@ -373,7 +374,13 @@ func writeRoot(c e2eCase, dir string) string {
 		}
 		sb.WriteString("    </dependency>\n")
 	}
-	sb.WriteString("  </dependencies>\n</project>\n")
+	sb.WriteString("  </dependencies>\n")
+	if c.ProfileMgmt {
+		// an inactive profile with a dependencyManagement section of its own (the project may have none): an override of a transitive
+		// dependency still has to be added at PROJECT level
+		sb.WriteString("  <profiles>\n    <profile>\n      <id>extra</id>\n      <dependencyManagement>\n        <dependencies>\n          <dependency>\n            <groupId>unrelated.g</groupId>\n            <artifactId>unrelated</artifactId>\n            <version>1.0.0</version>\n          </dependency>\n        </dependencies>\n      </dependencyManagement>\n    </profile>\n  </profiles>\n")
+	}
+	sb.WriteString("</project>\n")
 	p := filepath.Join(dir, "pom.xml")
 	must(os.WriteFile(p, []byte(sb.String()), 0o644))
 	return p
@@ -1152,6 +1159,9 @@ func genE2E(r *rand.Rand) e2eCase {
 				c.Root = append(c.Root, a)
 			}
 		}
+	}
+	if c.Eco == "m" {
+		c.ProfileMgmt = r.Intn(3) == 0
 	}
 	if c.Eco == "m" && r.Intn(3) == 0 {
 		// dependencyManagement entries: for a package nothing requires (it is part of the graph only with MavenManagement), for the
